@@ -13,7 +13,7 @@ namespace KVerif.L.Pinned
 open KVerif.L
 
 /-- one iteration of `for press in presses` -/
-def ppStep (possible : List ChordV2) (layer since : Nat) (relFound : Bool) (minIdle : Nat) (st : PP) (press : Nat) :
+def ppStep (possible : List ChordV2) (layer since : Nat) (relFound : Option Nat) (minIdle : Nat) (st : PP) (press : Nat) :
     Except Crash PP :=
   if st.done then .ok st else
   let acc := st.acc ++ [press]
@@ -50,7 +50,7 @@ def ppStep (possible : List ChordV2) (layer since : Nat) (relFound : Bool) (minI
     | none => .ok { st with ticksToIgnore := minIdle, done := true }
   | _ => .ok (fin st)
 
-def ppLoop (possible : List ChordV2) (layer since : Nat) (relFound : Bool) (minIdle : Nat) :
+def ppLoop (possible : List ChordV2) (layer since : Nat) (relFound : Option Nat) (minIdle : Nat) :
     List Nat → PP → Except Crash PP
   | [], st => .ok st
   | p :: rest, st =>
@@ -76,7 +76,7 @@ def processPresses (s : ChV2) (layer : Nat) : Except Crash ChV2 :=
         | .error c => .error c
         | .ok st =>
           let fin : Except Crash PP :=
-            if st.ticksUntil == 0 || relFound then
+            if st.ticksUntil == 0 || relFound.isSome then
               let pool := if st.cands.length ≥ SMOL_Q_LEN then possible else st.cands
               match (pool.filter (enabledOn layer)).find? (exactMatch st.acc) with
               | some cch =>
